@@ -89,31 +89,35 @@ class ReadSite:
             chk.fail("SHAPE", "read_site/genotype-switch", f.loc(), "no switch on a genotype::Result discriminant inside the per-sample loop")
             return
         self.arm = {nm: an.variant_target(f, self.geno_sw, nm) for nm in ("Genotype", "Skipped", "Error")}
-        # projection switch (Option::as_mut(&mut self.projection))
-        self.proj_sw = None
+        # projection-presence switches: Option::as_mut/as_ref/is_some/is_none on self.projection, or its discriminant directly
+        self.proj_edges = []   # (switch bb, some target, none target)
         for b, t in f.calls():
-            if callee_is(t["callee"], N.OPT_AS_MUT, N.OPT_AS_REF, N.OPT_IS_SOME):
+            if callee_is(t["callee"], N.OPT_AS_MUT, N.OPT_AS_REF, N.OPT_IS_SOME, N.OPT_IS_NONE):
                 tgt = an.arg_pointee(f, t, 0)
                 if tgt and an.self_field(tgt) == "projection":
-                    sw = an.switches_on_call_result(f, b)
-                    if sw:
-                        self.proj_call = b
-                        self.proj_sw = sw[0][0]
-                        st = f.term(self.proj_sw)
-                        self.proj_some = an.edge_target(st, 1)
-                        self.proj_none = an.edge_target(st, 0)
-        if self.proj_sw is None:
-            # direct discriminant on self.projection
-            for b, t in f.switches():
-                s = an.switch_subject(f, b)
-                if s["kind"] == "discr" and s["place"] and an.self_field(s["place"]) == "projection":
-                    self.proj_sw = b
-                    self.proj_some = an.edge_target(t, 1)
-                    self.proj_none = an.edge_target(t, 0)
-        if self.proj_sw is None:
+                    for sb, s_ in an.switches_on_call_result(f, b):
+                        st = f.term(sb)
+                        if callee_is(t["callee"], N.OPT_IS_NONE):
+                            self.proj_edges.append((sb, an.edge_target(st, 0), st["otherwise"]))
+                        elif callee_is(t["callee"], N.OPT_IS_SOME):
+                            self.proj_edges.append((sb, st["otherwise"], an.edge_target(st, 0)))
+                        else:
+                            self.proj_edges.append((sb, an.edge_target(st, 1), an.edge_target(st, 0)))
+        for b, t in f.switches():
+            s = an.switch_subject(f, b)
+            if s["kind"] == "discr" and s["place"] and an.self_field(s["place"]) == "projection":
+                self.proj_edges.append((b, an.edge_target(t, 1), an.edge_target(t, 0)))
+        if not self.proj_edges:
             chk.fail("SHAPE", "read_site/projection-switch", f.loc(), "no switch on self.projection being Some/None found")
             return
+        self.proj_sw, self.proj_some, self.proj_none = self.proj_edges[0]
         self.ok = True
+
+    def in_proj(self, b):
+        return any(an.dominated_by_edge(self.fn, sb, some_t, b) for sb, some_t, none_t in self.proj_edges)
+
+    def in_noproj(self, b):
+        return any(an.dominated_by_edge(self.fn, sb, none_t, b) for sb, some_t, none_t in self.proj_edges)
 
     def index_mut_sites(self):
         """(bb, field) for Count::index_mut(&mut self.<field>, ..) calls"""
@@ -228,7 +232,7 @@ def c01b(chk, rs):
     for b, variant, rv in rs.site_aggregates():
         if variant != "Standard":
             continue
-        in_proj = an.dominated_by_edge(f, rs.proj_sw, rs.proj_some, b)
+        in_proj = rs.in_proj(b)
         if in_proj:
             chk.ob("C01.b", "read_site/Standard@projection-branch", True, f.loc(b), "Site::Standard inside the projection branch is governed by C02.a", nontrivial=False)
             continue
@@ -236,7 +240,7 @@ def c01b(chk, rs):
         if is_empty is not None:
             st = f.term(is_empty[1])
             true_t = st["otherwise"] if all(a[0] == 0 for a in st["arms"]) else an.edge_target(st, 1)
-            ok = an.dominated_by_edge(f, is_empty[1], true_t, b) and an.dominated_by_edge(f, rs.proj_sw, rs.proj_none, b)
+            ok = an.dominated_by_edge(f, is_empty[1], true_t, b) and rs.in_noproj(b)
         chk.ob("C01.b", "read_site/Standard@no-projection/requires-no-skipped-sample", ok, f.loc(b),
                "without projection Site::Standard must be dominated by the true edge of self.skipped_samples.is_empty() "
                "(a record with a missing/multiallelic selected sample contributes nothing)")
@@ -621,7 +625,7 @@ def c02a(chk, rs):
         return
     # the fold call in read_site
     folds = [(b, t) for b, t in f.calls() if callee_is(t["callee"], N.FOLD) and any((a.get("k") != "const") and op_local(a) is not None and "closure" in f.local_ty(op_local(a)) for a in t["args"])]
-    folds = [(b, t) for b, t in folds if an.dominated_by_edge(f, rs.proj_sw, rs.proj_some, b)]
+    folds = [(b, t) for b, t in folds if rs.in_proj(b)]
     if len(folds) != 1:
         chk.fail("C02.a", "read_site/fold", f.loc(), "expected exactly one fold in the projection branch, found %d" % len(folds))
         return
@@ -737,7 +741,7 @@ def c02a(chk, rs):
     def false_t(b):
         return an.edge_target(f.term(b), 0)
     for b, variant, rv in rs.site_aggregates():
-        if not an.dominated_by_edge(f, rs.proj_sw, rs.proj_some, b):
+        if not rs.in_proj(b):
             continue
         if variant == "Standard":
             ok = an.dominated_by_edge(f, sw_exact, true_t(sw_exact), b)
